@@ -77,6 +77,7 @@ type Transcript struct {
 	InitState *AbsState     `json:"initState,omitempty"`
 	Blocks    []BlockRecord `json:"blocks"`
 	Concrete  []BlockSpec   `json:"-"`
+	Checked   [][][]byte    `json:"-"` // per block: the transactions the reference run sent to CheckTx before the block
 	Dead      bool          `json:"dead"`
 	DeadAt    string        `json:"deadAt,omitempty"`
 	Exit      int           `json:"exit"`
@@ -282,6 +283,7 @@ func run(sc *Scenario, g *Genesis, ref *Transcript, o RunOpts) (*Transcript, err
 					b.Votes = append(b.Votes, Vote{Validator: n, Power: lastSet[n], Signed: signed})
 				}
 			}
+			var checked [][]byte
 			for _, st := range sb.Txs {
 				bt := g.Build(st.Req)
 				rec := TxRecord{Req: st.Req, Path: st.Path, Signed: bt.Signed, FeePay: bt.FeePay, Index: -1}
@@ -290,6 +292,7 @@ func run(sc *Scenario, g *Genesis, ref *Transcript, o RunOpts) (*Transcript, err
 				rec.Hash = hex.EncodeToString(hs[:8])
 				include := true
 				if st.Path != "direct" {
+					checked = append(checked, bt.Bytes)
 					cr := p.Call(&Cmd{Op: "check", Tx: bt.Bytes})
 					if !cr.Alive {
 						br.Txs = append(br.Txs, rec)
@@ -310,14 +313,19 @@ func run(sc *Scenario, g *Genesis, ref *Transcript, o RunOpts) (*Transcript, err
 			br.Secs = int64(now.Sub(GenesisTime).Seconds())
 			br.Proposer, br.Votes, br.Byz = b.Proposer, b.Votes, b.Byz
 			tr.Concrete = append(tr.Concrete, *b)
+			tr.Checked = append(tr.Checked, checked)
 		}
 		br.Set = members
 		cmd := &Cmd{Op: "run_block", Block: b, WantState: o.WantState, WantOrder: true}
+		if ref != nil && !o.NoCheck && bi < len(ref.Checked) {
+			// the same mempool checks the reference run made, at the same point
+			cmd.PreChecks = append(cmd.PreChecks, ref.Checked[bi]...)
+		}
 		if o.Checks != nil && o.Checks[h] != nil {
 			cmd.Checks = map[int][][]byte{}
 			for pos, txs := range o.Checks[h] {
 				if pos < 0 {
-					cmd.PreChecks = txs
+					cmd.PreChecks = append(cmd.PreChecks, txs...)
 				} else {
 					cmd.Checks[pos] = txs
 				}
@@ -355,6 +363,16 @@ func run(sc *Scenario, g *Genesis, ref *Transcript, o RunOpts) (*Transcript, err
 			br.Events = append(br.Events, Event{Type: "verif_restart", Attrs: map[string]string{
 				"crash": crash, "info_height": fmt.Sprint(orep.Height), "info_hash": infoHash,
 				"want_height": fmt.Sprint(want), "want_hash": hex.EncodeToString(lastHashFor(crash, lastHash, rep.Hash))}})
+			if orep.Height == 0 {
+				// nothing was ever committed: Tendermint's handshake sends InitChain again
+				if r := p.Call(&Cmd{Op: "initchain"}); !r.Alive {
+					tr.Blocks = append(tr.Blocks, br)
+					return dead(fmt.Sprintf("initchain after restart at h=%d", h))
+				}
+				if o.ReinitWit {
+					p.Call(&Cmd{Op: "reinit_witness"})
+				}
+			}
 			// restore the node side: block store and transaction index hold the committed blocks
 			for j := 0; j < bi; j++ {
 				rb := tr.concreteOrRef(ref, j)
